@@ -11,3 +11,5 @@ require (
 require github.com/unixpickle/splaytree v1.1.0 // indirect
 
 replace github.com/unixpickle/model3d => /repo
+
+replace github.com/unixpickle/essentials => ../shim/essentials
